@@ -13,6 +13,7 @@ def gen_case(rng, cfg, big=False):
     target = int(cfg.get("HF_XET_TARGET_CHUNK_SIZE", 65536))
     maxb = int(cfg.get("HF_XET_MAX_XORB_BYTES", 64 << 20))
     mn, mx = target // 8, target * 2
+    blk = int(cfg.get("HF_XET_INGESTION_BLOCK_SIZE", 0))
     nid = [0]
 
     def fresh(n):
@@ -31,6 +32,13 @@ def gen_case(rng, cfg, big=False):
         salt = salts[s % len(salts)]
         ops.append("S" if salt is None else "S %s" % salt)
         this = []
+        if blk:
+            # one add_data call longer than the ingestion block and not a multiple of it: the splitting loop of add_data with a
+            # remainder (seed C14-m2 drops it)
+            fno[0] += 1
+            r0 = fresh(rng.choice([2, 3]) * blk + rng.randrange(1, blk))
+            ops.append("f n%d %s all" % (fno[0], r0))
+            this.append(r0)
         nfiles = rng.choice([1, 2, 3, 8 if not big else 30])
         for _ in range(nfiles):
             kind = rng.choice(["fresh", "fresh", "reupload", "extended", "recombined", "selfrepeat", "fragmented", "tiny", "empty"])
